@@ -1204,6 +1204,7 @@ func c05Run(r *fw.R, d c05Desc) {
 		return
 	}
 	var finalCloseErr atomic.Value
+	harnessCut := false // the harness itself ended the scenario with CloseNow while the final Close was still at work
 	if d.Closer == "none" {
 		peerSendWG.Wait() // the peer has sent everything it is going to send
 		time.Sleep(5 * time.Millisecond)
@@ -1219,6 +1220,7 @@ func c05Run(r *fw.R, d c05Desc) {
 	case <-time.After(8 * time.Second):
 		// the reader can legitimately still be waiting for data (e.g. a context cancelled between two calls
 		// closes nothing): end the scenario ourselves
+		harnessCut = true
 		c.CloseNow()
 		select {
 		case <-done:
@@ -1265,6 +1267,11 @@ func c05Run(r *fw.R, d c05Desc) {
 		// the final Close itself gave up (its 5 s + 5 s ran out on a slow machine) and closed the transport under
 		// whatever was still being written (a Pong, say): a cut tail is then the local side's doing
 		r.Count("final_closes_that_timed_out_not_judged", 1)
+	} else if harnessCut && d.Closer == "none" && (len(conf.Pending()) > 0 || conf.InMessage()) {
+		// (on a machine so loaded that the final Close and the reader need more than 8 s the harness's own CloseNow cuts
+		// whatever is being written: seen twice in this session as truncated-frame + unfinished-message on trees whose
+		// patch had nothing to do with it - a false alarm of the harness, not judged any more)
+		r.Count("tails_cut_by_the_harness_itself_not_judged", 1)
 	} else if d.Closer == "none" && d.Impatient == 0 && d.ImpatientWriters == 0 {
 		if len(conf.Pending()) > 0 {
 			r.Violate("C05/truncated-frame", fmt.Sprintf("%s: the emitted stream ends inside a frame (%d pending bytes, %x) although nothing closed the connection before the final Close; frames: %s; readErr=%v", what, len(conf.Pending()), conf.Pending()[:min(12, len(conf.Pending()))], tail(string(conf.FrameLog), 60), readErr), "")
